@@ -14,7 +14,9 @@ def min_base(x, y, eps):
     isInsideEps = np.abs(xmy) < eps
     x = np.where(isInsideEps, x, 0.0)
     y = np.where(isInsideEps, y, 0.0)
-    return np.where(isInsideEps, (-0.25*(x+y-safeEps)**2 + x*y)/safeEps, justMin)
+    # algebraically (-0.25*(x+y-eps)**2 + x*y)/eps, written without the cancellation
+    # of x*y against (x+y)**2/4 that loses all accuracy when |x|,|y| >> eps
+    return np.where(isInsideEps, 0.5*(x+y) - 0.25*(safeEps + (x-y)*(x-y)/safeEps), justMin)
 
 
 def min(x, y, eps):
